@@ -110,7 +110,7 @@ Definition class_of (k : kind) : akind :=
   | KFunc | KGenFunc | KBuiltin => AFunc
   | KVar => AVar
   | KType | KIface _ | KGenType | KConstraint => AType
-  | KConstId | KUInt _ | KUFloat _ _ | KUString _ => AConst
+  | KConstId | KUInt _ | KURune _ | KUFloat _ _ | KUString _ => AConst
   end.
 
 Definition api_agrees (t : tobj) : bool :=
@@ -120,6 +120,7 @@ Definition api_agrees (t : tobj) : bool :=
       akind_eqb ak (class_of (t_kind t)) &&
       match v, t_kind t with
       | Some q, KUInt z => q_eqb q (z, 1)
+      | Some q, KURune z => q_eqb q (z, 1)
       | Some q, KUFloat n d => q_eqb q (n, d)
       | _, _ => true
       end
